@@ -699,6 +699,9 @@ SEVENTH_PASS = {
 }
 
 NINTH_PASS = {
+    "C04": ("Round 9: a managed object built from the data of another gets an array of its own, also when the data come through an "
+            "accessor that returns a view; the composition of stacked transformations is decided by role.",
+            "view-of-self rule through accessors; composition-order rule by role"),
     "C16": ("Round 9: the right-hand sides of the hierarchy are linear in the auxiliary operators (no conjugate or transpose of a value "
             "derived from them), so non-Hermitian initial operators are propagated correctly.", "taint rule on conjugation / transposition"),
     "C02": ("Round 9: the array in which the system-bath interaction collects its operators has a fixed floating element type.",
